@@ -721,8 +721,14 @@ pub fn case(cx: &mut Case) -> CaseResult {
         ck.value(J::CurrentPrevOutpoint, unit(), c.outpoint.clone())?;
         ck.value(J::CurrentSequence, unit(), c.sequence.clone())?;
         ck.value(J::CurrentScriptSigHash, unit(), c.script_sig_hash.clone())?;
-        if let Some(a) = &c.annex {
-            ck.value(J::CurrentAnnexHash, unit(), opt(a.clone()))?;
+        match &c.annex {
+            Some(a) => ck.value(J::CurrentAnnexHash, unit(), opt(a.clone()))?,
+            None => {
+                if cx.verbose {
+                    let got = ck.run(J::CurrentAnnexHash, &unit())?;
+                    eprintln!("  not asserted (one-item witness stack starting with 0x50): current_annex_hash() = {}", got.map(|b| b.render()).unwrap_or_else(|e| e));
+                }
+            }
         }
         pegin_check!(k, ck.value(J::CurrentPegin, unit(), opt(c.pegin.clone())));
         ck.value(J::CurrentAsset, unit(), c.asset.clone())?;
